@@ -112,7 +112,30 @@ func check(args []string) {
 	}
 	e := vc.NewEngine(*repo, filepath.Join(*verif, "contracts-mirror"))
 	if err := e.Load(ps.Packages); err != nil {
-		// the tree does not load/type-check with the contracts: undecidable here, not a property verdict
+		// every error lies in a generated contract file: the code still compiles but a contract no longer type-checks
+		// against it (a field or function a clause names was removed or changed type) - the contracts of this property
+		// do not bind the code any more: reported as a violation (stale contract), never as a pass
+		msg := err.Error()
+		onlyContracts := strings.Contains(msg, vc.GenFileName)
+		for _, ln := range strings.Split(msg, "\n") {
+			if strings.TrimSpace(ln) == "" || strings.HasPrefix(ln, "load errors") {
+				continue
+			}
+			if !strings.Contains(ln, vc.GenFileName) {
+				onlyContracts = false
+			}
+		}
+		if onlyContracts {
+			replayDir := filepath.Join(*verif, "replays", *prop)
+			os.RemoveAll(replayDir)
+			os.MkdirAll(replayDir, 0o755)
+			f := filepath.Join(replayDir, "stale_contracts_do_not_typecheck.txt")
+			os.WriteFile(f, []byte("property: "+*prop+"\nfailed obligation: the contracts of this property type-check against the code\nkind: stale contract\n\nThe code compiles, but the contract clauses (generated file "+vc.GenFileName+") do not type-check against it any more:\n\n"+msg+"\n"), 0o644)
+			fmt.Printf("%s %s: contracts do not type-check against the code (stale)\n", *prop, *tier)
+			fmt.Printf("VIOLATION property=%s replay=%s no-failing-input-found\n", *prop, f)
+			os.Exit(1)
+		}
+		// the tree itself does not load/type-check: undecidable here, not a property verdict
 		fmt.Fprintln(os.Stderr, "govc: load failed:", err)
 		os.Exit(2)
 	}
@@ -336,6 +359,8 @@ func check(args []string) {
 	}
 }
 
+var replaySpent time.Duration
+
 func fatal(err error) {
 	fmt.Fprintln(os.Stderr, "govc:", err)
 	os.Exit(2)
@@ -349,8 +374,12 @@ func writeReplay(e *vc.Engine, prop, dir string, r vc.Result, scratch string) (s
 		name = name[:150]
 	}
 	rp, ok := "", false
-	if os.Getenv("GOVC_NOREPLAY") == "" { // selftest/canaries.sh only asks whether the obligation fails
+	// replays are best effort and bounded per run: the first failed obligations get a model-derived input run against
+	// the real code, later ones (a change that breaks many obligations at once) are reported without one
+	if os.Getenv("GOVC_NOREPLAY") == "" && replaySpent < 240*time.Second { // selftest/canaries.sh only asks whether the obligation fails
+		t0 := time.Now()
 		rp, ok = vc.TryReplay(e, r, dir, name, scratch)
+		replaySpent += time.Since(t0)
 	}
 	if ok {
 		return rp, true
